@@ -4,6 +4,15 @@
 Require Extraction.
 Require Import ExtrOcamlBasic.
 From Coq Require Import ZArith List.
-From Cedar Require Import Base.Int64 Impl.Authorize.
+From Cedar Require Import Base.Int64 Lang.Value Lang.Expr Impl.Authorize Impl.Like Impl.Eval
+  Impl.Decimal Impl.Duration Impl.Datetime Impl.IPAddr.
 Extraction Language OCaml.
-Extraction "model.ml" Authorize.authorize Z.add Z.mul Z.opp Z.of_nat Z.compare.
+Extraction "model.ml"
+  Authorize.authorize
+  Value.mk_set Value.mk_record Value.rec_of_list Value.veq Value.s_of
+  Like.compile_pattern Like.go_match
+  Eval.eval Eval.bool_eval Eval.policy_to_expr
+  Decimal.parse_decimal Decimal.print_decimal Decimal.new_decimal_exp
+  Duration.parse_duration Duration.print_duration
+  Datetime.parse_datetime Datetime.print_datetime
+  IPAddr.parse_ip.
